@@ -4,7 +4,7 @@ RECURSIVE SeqOfSet(_)
 SeqOfSet(S) == IF S = {} THEN <<>> ELSE LET x == CHOOSE y \in S : \A z \in S : y <= z IN <<x>> \o SeqOfSet(S \ {x})
 Out(k) == IF k.cls = "shape"
           THEN [cls |-> "shape", api |-> k.s.api, wd |-> k.s.wd, count |-> Count(k.s.wd, k.s.d), size |-> k.s.size,
-                order |-> k.s.order, maxw |-> MaxW, demand |-> ShapeDemand(k.s), predict |-> ShapeCode(k.s)]
+                order |-> k.s.order, oline |-> k.s.oline, opos |-> k.s.opos, maxw |-> MaxW, demand |-> ShapeDemand(k.s), predict |-> ShapeCode(k.s)]
           ELSE [cls |-> "erasure", k |-> K, present |-> SeqOfSet(k.P), demand |-> ErasureDemand(k.P)]
 GenNext == Next /\ PrintT(ToJson(Out(kase')))
 =============================================================================
